@@ -32,9 +32,11 @@ package basichost_test
 import (
 	"bufio"
 	"context"
+	"errors"
 	"crypto/rand"
 	"fmt"
 	"io"
+	"net"
 	"os"
 	"path/filepath"
 	"sort"
@@ -226,6 +228,11 @@ func (l *vfC07Ledger) handler(h *vfC07H) network.StreamHandler {
 			line, err := rd.ReadString('\n')
 			if err != nil {
 				if err == io.EOF {
+					// the dialer half-closed (or closed): say how many lines arrived before the EOF, then close
+					inv.mu.Lock()
+					n := len(inv.nonces)
+					inv.mu.Unlock()
+					s.Write([]byte(fmt.Sprintf("E:%d:%d:%d\n", inv.serial, h.id, n)))
 					s.Close()
 				} else {
 					s.Reset()
@@ -297,6 +304,19 @@ func (l *vfC07Ledger) commonDuring(req []protocol.ID, from, to int64) bool {
 	return false
 }
 
+// acceptedThroughout: some closure whose matcher accepts p has been registered since before `from` and
+// still is - nothing about p's acceptance changed while the stream in question existed
+func (l *vfC07Ledger) acceptedThroughout(p protocol.ID, from int64) bool {
+	l.mu.Lock()
+	defer l.mu.Unlock()
+	for _, h := range l.all {
+		if h.added < from && h.removed.Load() == 0 && vfC07Accepts(h.n, h.k, p) {
+			return true
+		}
+	}
+	return false
+}
+
 func (l *vfC07Ledger) invsFrom(i int) []*vfC07Inv {
 	l.mu.Lock()
 	defer l.mu.Unlock()
@@ -319,6 +339,7 @@ type vfC07Str struct {
 	lazy     bool  // the host returned its lazy wrapper
 	inv      *vfC07Inv
 	lastUsed int64
+	used     bool         // the dialer has operated on the stream since the open
 	d        string       // dialer ("A" or "B")
 	dn       *vfC07Node   // the dialer's node
 	ll       *vfC07Ledger // the LISTENER's ledger
@@ -555,6 +576,10 @@ func (r *vfC07Run) apply(op vfh.Op) {
 		r.use(op)
 	case "close":
 		r.closeOp(op)
+	case "finish":
+		r.finish(op)
+	case "reset":
+		r.resetOp(op)
 	default:
 		r.t.Fatalf("unknown op %q", op.Name())
 	}
@@ -676,6 +701,14 @@ func (r *vfC07Run) use(op vfh.Op) {
 		}
 		return
 	}
+	defer func() { x.used = true }()
+	if !x.used {
+		r.res.Inc("first_op_"+op.S("m")+"_on_"+map[bool]string{true: "optimistic", false: "negotiated"}[x.lazy], 1)
+	}
+	if op.S("m") == "rd" {
+		r.readFirst(op, i, x)
+		return
+	}
 	first := x.inv == nil
 	n0 := x.ll.nInvs()
 	noCommon := !x.ll.commonDuring(x.req, x.openSeq, x.ll.seq.Load())
@@ -717,6 +750,7 @@ func (r *vfC07Run) use(op vfh.Op) {
 		case stray["n"] != "":
 			r.rep("L2:stray-handler", "the model's rule starts a handler on the application's bytes after the refusal; none ran", stray, nil)
 		}
+		r.mustReach(x, "write+read", err)
 		if first && vfC07CommonNow(x.ll, x.req) && !x.ll.ever(x.s.Protocol()) {
 			// CommonMeansSuccess: the statement excuses a failed first use only when the id was "chosen
 			// optimistically from EARLIER KNOWLEDGE"; the listener never advertised nor accepted this id
@@ -762,6 +796,225 @@ func (r *vfC07Run) use(op vfh.Op) {
 	}
 }
 
+// mustReach (L1): the id the dialer's stream is bound to has been accepted by the listener's table since
+// before the open and nothing changed, so - whatever the dialer's first operation was - the handler has to
+// run and the exchange has to work; a failure here is not excused by stale knowledge.  A deadline that
+// expires where an error was due is the "silent hang".
+func (r *vfC07Run) mustReach(x *vfC07Str, how string, err error) {
+	if x.ll.acceptedThroughout(x.s.Protocol(), x.openSeq) {
+		r.rep("accepted-protocol-not-served", fmt.Sprintf("host %s holds a stream bound to %s, which the listener's table has accepted since before the open; %s failed: %v", x.d, x.s.Protocol(), how, err), "handler runs and answers", fmt.Sprint(err))
+	} else if vfC07IsTimeout(err) {
+		r.rep("silent-hang-on-refused-stream", fmt.Sprintf("host %s: %s on a stream bound to %s, which the listener does not accept, neither failed nor fell back: %v", x.d, how, x.s.Protocol(), err), "an error", fmt.Sprint(err))
+	}
+}
+
+// firstInv: bookkeeping common to every first operation that makes the listener negotiate
+func (r *vfC07Run) firstInv(op vfh.Op, x *vfC07Str, invs []*vfC07Inv, noCommon bool, how string) {
+	if len(invs) != 1 {
+		r.rep("more-than-one-handler", "the number of handlers that ran at the first operation ("+how+") of a stream is not one", 1, len(invs))
+	}
+	if len(invs) >= 1 {
+		x.inv = invs[0]
+		vfC07CheckInv(r.rep, x.dn, x, x.inv)
+		if h := op.M("h"); h["n"] != x.inv.h.n || h["k"] != x.inv.h.k {
+			r.rep("L2:handler-order", "another accepting handler ran than the first in table order", h, x.inv.h.n+"/"+x.inv.h.k)
+		}
+	}
+	if noCommon {
+		r.rep("established-without-common-protocol", "the first operation ("+how+") reached a handler although no registered matcher accepted any requested id since the open began", "fail", "ok")
+	}
+}
+
+func vfC07IsTimeout(err error) bool {
+	if err == nil {
+		return false
+	}
+	var ne net.Error
+	if errors.As(err, &ne) && ne.Timeout() {
+		return true
+	}
+	return errors.Is(err, os.ErrDeadlineExceeded) || strings.Contains(err.Error(), "deadline")
+}
+
+func (r *vfC07Run) drop(i int, x *vfC07Str) {
+	x.s.Reset()
+	r.slots[i] = nil
+	synctest.Wait()
+}
+
+// readFirst: the dialer reads (with a short deadline, virtual time) before it has written anything.  The
+// lazy handshake has to complete and the handler to start; the replay's handler says nothing until it gets
+// a line, so the read ends at its deadline.
+func (r *vfC07Run) readFirst(op vfh.Op, i int, x *vfC07Str) {
+	first := x.inv == nil
+	n0 := x.ll.nInvs()
+	noCommon := !x.ll.commonDuring(x.req, x.openSeq, x.ll.seq.Load())
+	x.s.SetReadDeadline(time.Now().Add(5 * time.Millisecond))
+	_, err := x.rd.ReadString('\n')
+	x.s.SetReadDeadline(time.Time{})
+	synctest.Wait()
+	invs := x.ll.invsFrom(n0)
+	r.res.Inc("use_rd_"+op.S("res"), 1)
+	timedOut := vfC07IsTimeout(err)
+	reached := timedOut && (!first || len(invs) >= 1)
+	if !reached {
+		if first && len(invs) > 0 {
+			cls := "L2:handler-ran-on-failed-use"
+			if noCommon {
+				cls = "handler-ran-without-common-protocol"
+			}
+			r.rep(cls, fmt.Sprintf("reading first failed (%v) but %d handler(s) ran", err, len(invs)), 0, len(invs))
+		}
+		if x.ll.acceptedThroughout(x.s.Protocol(), x.openSeq) {
+			r.rep("accepted-protocol-not-served", fmt.Sprintf("host %s holds a stream bound to %s, which the listener's table has accepted since before the open; it read first: %v, handlers started: %d", x.d, x.s.Protocol(), err, len(invs)), "handler runs", fmt.Sprint(err))
+		} else if timedOut {
+			r.rep("silent-hang-on-refused-stream", fmt.Sprintf("host %s read first on a stream bound to %s, which the listener does not accept: neither an error nor a fallback, the read ran into its deadline", x.d, x.s.Protocol()), "an error", fmt.Sprint(err))
+		}
+		if op.S("res") != "fail" {
+			r.rep("L2:use-result", fmt.Sprintf("reading first did not reach a handler where the model's rule does: %v", err), "ok", "fail")
+			r.absent[i] = true
+		}
+		r.drop(i, x)
+		return
+	}
+	if first {
+		r.res.Inc("use_rd_first_ok", 1)
+		r.firstInv(op, x, invs, noCommon, "read")
+	} else if len(invs) != 0 {
+		r.rep("more-than-one-handler", "another handler ran for an already established stream", 0, len(invs))
+	}
+	if op.S("res") == "fail" {
+		r.rep("L2:use-result", "reading first reached a handler where the model's rule fails", "fail", "ok")
+		r.drop(i, x)
+	}
+}
+
+// finish: half-close as the first operation ("cw") or after one line ("wcw"), read the handler's answer up
+// to EOF, close.  The handler must have seen exactly the lines written and then EOF.
+func (r *vfC07Run) finish(op vfh.Op) {
+	i := op.I("s") - 1
+	x := r.slots[i]
+	if x == nil {
+		if !r.absent[i] {
+			r.t.Fatalf("walk %d step %d: finish on an empty slot", r.walk, r.step)
+		}
+		r.absent[i] = false
+		r.res.Inc("skipped_after_divergence", 1)
+		return
+	}
+	m := op.S("m")
+	first := x.inv == nil
+	n0 := x.ll.nInvs()
+	noCommon := !x.ll.commonDuring(x.req, x.openSeq, x.ll.seq.Load())
+	nonce := fmt.Sprintf("F%d-%d-%d-%d", vfh.Seed(), r.walk, r.step, i)
+	before := 0
+	if x.inv != nil {
+		x.inv.mu.Lock()
+		before = len(x.inv.nonces)
+		x.inv.mu.Unlock()
+	}
+	var err error
+	var echo, fin string
+	x.s.SetDeadline(time.Now().Add(30 * time.Second)) // virtual; only a hang gets there
+	if m == "wcw" {
+		_, err = x.s.Write([]byte(nonce + "\n"))
+	}
+	if err == nil {
+		err = x.s.CloseWrite()
+	}
+	if err == nil && m == "wcw" {
+		echo, err = x.rd.ReadString('\n')
+	}
+	if err == nil {
+		fin, err = x.rd.ReadString('\n')
+	}
+	if err == nil {
+		if rest, e2 := x.rd.ReadString('\n'); e2 != io.EOF || rest != "" {
+			err = fmt.Errorf("no end of stream after the handler's answer: %q %v", rest, e2)
+		}
+	}
+	synctest.Wait()
+	invs := x.ll.invsFrom(n0)
+	r.res.Inc("finish_"+m+"_"+op.S("res"), 1)
+	if first {
+		r.res.Inc("finish_"+m+"_first_"+op.S("res"), 1)
+	}
+	if !x.used {
+		r.res.Inc("first_op_"+m+"_on_"+map[bool]string{true: "optimistic", false: "negotiated"}[x.lazy], 1)
+	}
+	if err != nil {
+		if first && len(invs) > 0 {
+			cls := "L2:handler-ran-on-failed-use"
+			if noCommon {
+				cls = "handler-ran-without-common-protocol"
+			}
+			r.rep(cls, fmt.Sprintf("half-close first failed (%v) but %d handler(s) ran", err, len(invs)), 0, len(invs))
+		}
+		r.mustReach(x, "half-close ("+m+") then read", err)
+		if op.S("res") != "fail" {
+			r.rep("L2:use-result", "the half-close exchange failed where the model's rule succeeds: "+err.Error(), "ok", "fail")
+		}
+		r.drop(i, x)
+		return
+	}
+	if first {
+		r.firstInv(op, x, invs, noCommon, "half-close "+m)
+	} else if len(invs) != 0 {
+		r.rep("more-than-one-handler", "another handler ran for an already established stream", 0, len(invs))
+	}
+	// the answer: E:<invocation>:<closure>:<lines seen before EOF>, preceded by the echo of the line (wcw)
+	want := before
+	if m == "wcw" {
+		want++
+	}
+	if x.inv != nil {
+		if exp := fmt.Sprintf("E:%d:%d:%d\n", x.inv.serial, x.inv.h.id, want); fin != exp {
+			r.rep("echo-misrouted", "the answer to the half-close does not come from the invocation serving this stream with the lines it was sent", exp, fin)
+		}
+		if m == "wcw" {
+			if exp := fmt.Sprintf("%d:%d:%s\n", x.inv.serial, x.inv.h.id, nonce); echo != exp {
+				r.rep("echo-mismatch", "the bytes read back are not the echo of the line written before the half-close", exp, echo)
+			}
+		}
+		x.inv.mu.Lock()
+		done, clean := x.inv.done, x.inv.clean
+		x.inv.mu.Unlock()
+		if !done || !clean {
+			r.rep("half-close-not-seen-as-eof", "the handler did not see the dialer's half-close as the end of the stream", "EOF", fmt.Sprintf("done=%v clean=%v", done, clean))
+		}
+	}
+	if op.S("res") == "fail" {
+		r.rep("L2:use-result", "the half-close exchange succeeded where the model's rule fails", "fail", "ok")
+	}
+	x.s.SetDeadline(time.Time{})
+	x.s.Close()
+	r.slots[i] = nil
+	synctest.Wait()
+}
+
+func (r *vfC07Run) resetOp(op vfh.Op) {
+	i := op.I("s") - 1
+	x := r.slots[i]
+	r.absent[i] = false
+	if x == nil {
+		r.res.Inc("skipped_after_divergence", 1)
+		return
+	}
+	n0 := x.ll.nInvs()
+	wasLazy := x.inv == nil
+	x.s.Reset()
+	synctest.Wait()
+	r.slots[i] = nil
+	r.res.Inc("reset_"+op.S("ph"), 1)
+	if n := len(x.ll.invsFrom(n0)); n != 0 {
+		cls := "L2:handler-ran-after-reset"
+		if wasLazy && !x.ll.commonDuring(x.req, x.openSeq, x.ll.seq.Load()) {
+			cls = "handler-ran-without-common-protocol"
+		}
+		r.rep(cls, "a handler started when the dialer reset the stream", 0, n)
+	}
+}
+
 func (r *vfC07Run) closeOp(op vfh.Op) {
 	i := op.I("s") - 1
 	x := r.slots[i]
@@ -792,6 +1045,8 @@ func (r *vfC07Run) closeOp(op vfh.Op) {
 		}
 		exp := op.M("h")
 		switch {
+		case len(invs) == 0 && x.ll.acceptedThroughout(x.s.Protocol(), x.openSeq):
+			r.rep("accepted-protocol-not-served", fmt.Sprintf("host %s closed a never-used stream bound to %s, which the listener's table has accepted since before the open; no handler ran", x.d, x.s.Protocol()), "handler runs", "none")
 		case len(invs) == 0 && exp["n"] != "":
 			r.rep("L2:close-flush", "the model's rule runs a handler when the unused lazy stream is closed", exp, nil)
 		case len(invs) >= 1 && (exp["n"] != invs[0].h.n || exp["k"] != invs[0].h.k):
